@@ -51,6 +51,8 @@ class Lin:
                     return x[2]
             if h == "ifexp" and x[2] == x[3]:
                 return x[2]
+            if h == "ifexp" and x[1][0] == "const":
+                return x[2] if x[1][1] else x[3]
             for ax in self.axioms:
                 r = ax(x)
                 if r is not None:
